@@ -311,7 +311,9 @@ struct ScriptedRunner : public CommandRunner {
   string ContentFor(const Running& r, const string& out) {
     auto dd = sc->ddtext.find(out);
     if (dd != sc->ddtext.end()) return dd->second;
-    string acc = r.edge->EvaluateCommand(true);
+    // a generator's output is a function of its inputs only (ninja deliberately does not re-run it when
+    // just its command line changes), every other command's output depends on its command line too
+    string acc = r.edge->GetBindingBool("generator") ? string("generator") : r.edge->EvaluateCommand(true);
     acc.push_back('\0'); acc += out; acc.push_back('\0');
     for (auto& p : r.reads) { acc += p; acc.push_back('\0'); acc += r.snapshot.at(p); acc.push_back('\0'); }
     return "H:" + u64hex(fnv(acc));
